@@ -39,8 +39,14 @@ REQUIRED_CLASSES = ['seed=1', 'seed=0', 'sampling=1', 'sampling=0']
 
 
 def gen_case(rng, i):
-    c = RC.gen_case(rng, None, pruning=False, allow_none=False)
+    c = RC.gen_case(rng, None, pruning=(i % 4 == 3), allow_none=False)
     c['form'] = 'list'
+    if c['kw'].get('strip') or (c['xs'] and rng.random() < 0.1):
+        # raw strings that become ONE example once stripped, given unequal numbers of times
+        c['kw']['strip'] = True
+        for x in rng.sample(c['xs'], min(len(c['xs']), 3)):
+            c['xs'] += [x + ' '] * rng.randint(0, 2) + [' ' + x] * rng.randint(0, 2) + [x.strip()] * rng.randint(0, 3)
+        rng.shuffle(c['xs'])
     sampling = i % 2 == 0
     if sampling:
         c['size'] = dict(do_all=rng.choice([1, 2, 5]), do_all_exceptions=rng.choice([1, 2, 5]),
@@ -49,7 +55,7 @@ def gen_case(rng, i):
             c['xs'] = c['xs'] + S.multiset(rng, n=10)
     elif not isinstance(c['size'], dict) or RC.effective_sampling(c):
         c['size'] = None
-    c['seed'] = rng.choice([1, 7, 12345]) if i % 4 < 2 else None
+    c['seed'] = rng.choice([0, 1, 7, 12345, -1, 2 ** 40]) if i % 4 < 2 else None
     c['priors'] = [rng.randrange(10 ** 6) for _ in range(2)]
     c['perm'] = rng.randrange(10 ** 6)
     c['warm'] = rng.randrange(10 ** 6)
@@ -68,12 +74,13 @@ def variants(case):
     out.append(('dict', xs, 'dict'))
     out.append(('dict-perm', p1, 'dict'))
     j = pr.randrange(len(xs)) if xs else 0
-    if xs:
+    pruned = case['kw'].get('max_patterns') is not None or (case['kw'].get('min_strings_per_pattern') or 1) > 1
+    if xs and not pruned:      # (how often an example occurs legitimately matters to the pruning options)
         out.append(('repeat-one', xs + [xs[j]], 'list'))
         out.append(('repeat-one-front', [xs[j]] + xs, 'list'))
     kw = case['kw']
     default_opts = (not kw['tag'] and not kw['strip'] and not kw['remove_empties'] and not kw['extra_letters']
-                    and not kw['variableLengthFrags'] and kw['dialect'] == 'portable' and case['size'] is None)
+                    and not kw['variableLengthFrags'] and kw['dialect'] == 'portable' and case['size'] is None and not pruned)
     if default_opts and not any('\x00' in x for x in xs):
         out.append(('series', xs, 'series'))
         out.append(('series', xs, 'catseries'))
